@@ -40,7 +40,7 @@ ASSUMPTIONS = ['RMSD values are compared with a float64 Kabsch RMSD; the allowed
                'the simulated memory always leaves room for the longest file plus one frame (the equality case is outside the statement)']
 REACH_EXPECTED = ['multi_batch_reassign', 'single_batch_reassign', 'centers_as_trajectory', 'centers_as_list', 'two_topologies',
                   'ragged_reassign_output', 'square_reassign_output', 'partition_square', 'partition_ragged', 'partition_after_mpi',
-                  'length1_trajectory', 'center_on_first_frame', 'center_on_last_frame', 'more_centers_than_frames', 'predict_new_data', 'predict_after_refit']
+                  'length1_trajectory', 'center_on_first_frame', 'center_on_last_frame', 'more_centers_than_frames', 'predict_new_data', 'predict_after_refit', 'caller_edits_labels_']
 
 
 def rmsd64(X, c):
@@ -368,8 +368,9 @@ def fam_assign(ctx):
     U = e['util']
     kind = t.choice(('arrays', 'arrays', 'predict', 'trajectories'))
     if kind == 'trajectories':
-        n_atoms = t.irange(3, 6)
-        top = make_top(1, False) if n_atoms == 3 else make_top(2, False)
+        # at least six atoms: with two or three atoms the optimal superposition is (nearly) degenerate and mdtraj's float32
+        # RMSD is off by far more than any sensible allowance (measured: up to 5x the error model for 2 atoms, 0.03x for >= 5)
+        top = make_top(2, t.flag())
         n_atoms = top.n_atoms
         rs = np.random.RandomState(t.draw(2 ** 31 - 1))
         n = t.irange(1, 6)
@@ -405,12 +406,22 @@ def fam_assign(ctx):
         ctx.sut(est.fit, P.X.copy())
         # new data, not the training data
         Y = M.gen_points(t, t.irange(1, 20), P.dim, P.dtype)
+        if P.metric_name == 'callable' and P.dtype == 'float32' and t.flag():
+            # wider element type than the training data (a user metric accepts it): values float32 cannot hold
+            Y = Y.astype(np.float64) + 1e5 + np.arange(len(Y))[:, None] * 1e-3
+            ctx.hit('predict_wider_dtype')
+        if t.flag(1, 3) and len(est.labels_) > 1:
+            # the caller post-processes the labels it got from the fitted object (merging states): predict assigns to
+            # the given centres and must not care
+            lab = est.labels_
+            lab[lab == lab.max()] = 0
+            ctx.hit('caller_edits_labels_')
         snap = Y.copy()
         res = ctx.sut(est.predict, Y)
         require(np.array_equal(Y, snap), 'input_modified', 'predict modified its data')
         Cs = [np.asarray(c) for c in est.centers_]
         D = np.array([model(Y, c) for c in Cs])
-        check_assign(res.assignments, res.distances, D, M.rtol_for(P.dtype) * 4)
+        check_assign(res.assignments, res.distances, D, M.rtol_for(Y.dtype) * 4)
         check_center_finder(ctx, U, res.assignments, res.distances, res.center_indices)
         ctx.hit('predict_new_data')
         if t.flag():
